@@ -326,7 +326,10 @@ impl Drawable<'_> {
     }
 
     pub(crate) fn clear(mut self) -> io::Result<()> {
-        let state = self.state();
+        let mut state = self.state();
+        // Nothing is drawn, so there is nothing to align: do not replace the cleared
+        // lines with blank filler lines that the next draw would count as its own.
+        state.alignment = MultiProgressAlignment::Top;
         drop(state);
         self.draw()
     }
